@@ -4,3 +4,6 @@ package comet
 
 // verifPoint is a no-op unless built with the tag "verif" (see verif_hooks_on.go).
 func verifPoint(name string) {}
+
+// verifCapture is a no-op unless built with the tag "verif".
+func verifCapture(name string, owner any, value any) {}
